@@ -21,3 +21,6 @@ package tracing
 //@   acquires {C20} tracing.SpansIndex.spansLk
 //@   modifies si.spans
 //@   loop 0 invariant [all-spans] true
+
+//@ func tracing.NewSpansIndex {C20}
+//@   constructor
